@@ -1,3 +1,4 @@
+// build: no-xen
 //! C14: stream transfers into / out of guest memory under scripted short I/O, EINTR, end of stream and
 //! hard errors.
 //! case:  mode target [layout] [memory] addr count op [script] [source]
